@@ -60,6 +60,32 @@ func (it *Interp) pickRunnable() *Goroutine {
 			return g
 		}
 	}
+	if it.goschedReq {
+		it.goschedReq = false
+		saved := it.cur
+		for _, g := range it.gs {
+			if g.state == gBlocked && g.wake != nil {
+				it.cur = g
+				if g.wake() {
+					g.state = gRunnable
+					g.wake = nil
+				}
+			}
+		}
+		it.cur = saved
+		idx := -1
+		for i, g := range it.gs {
+			if g == it.cur {
+				idx = i
+			}
+		}
+		for k := 1; k <= len(it.gs); k++ {
+			g := it.gs[(idx+k)%len(it.gs)]
+			if g.state == gRunnable {
+				return g
+			}
+		}
+	}
 	for round := 0; round < 2; round++ {
 		if it.cur != nil && it.cur.state == gRunnable {
 			return it.cur
